@@ -33,7 +33,12 @@ def cases(tier, seed):
                  base_blocks=(1, 3) if bf >= 4 else (2, 4), payload=rng.choice(["random", "special", "extreme"]))
         if bf == 8:
             g["nlevels"] = min(g["nlevels"], 2)
-        cs.append({"gen": g, "sel_seed": seed * 29 + i, "shuffle1": i % 2 == 0})
+        c = {"gen": g, "sel_seed": seed * 29 + i, "shuffle1": i % 2 == 0}
+        if i % 8 == 3:      # the first input keeps its binary files in a store, linked into the level directories
+            c["store1"] = ["files", "files+levels"][(i // 8) % 2]
+        if i % 8 == 6:      # ... or is reached through `<symlinked directory>/../plt1`
+            c["reach1"] = True
+        cs.append(c)
     # scale: box indices of six digits - two meshes one cell apart must still be told apart
     for k in range(1 if tier == "quick" else 4):
         cs.append({"kind": "long_mismatch", "split": 100002 + 7001 * k + seed % 5, "sel_seed": seed * 29 + 999 + k})
@@ -128,6 +133,12 @@ def run_case(case, work, rec):
     fmt = lambda: dict(ref_ratio_extra=rng.choice([0, 0, 1, 3]), trailing_blank=rng.random() < 0.7,
                        close_blank=rng.random() < 0.3, floatfmt=rng.choice(["repr", "17g"]))
     gen.write_plotfile(m1, p1, **fmt())
+    if case.get("store1"):
+        workload.to_store(p1, level_links="levels" in case["store1"])
+        rec.count("first_input_with_linked_binary_files")
+    if case.get("reach1"):
+        p1 = workload.reach_link_dotdot(work, p1)
+        rec.count("first_input_reached_through_link_dotdot")
     e1 = refmodel.from_model(m1)
     digest = common.sha(g, n1, n2, case["shuffle1"])
     rec.sample({"plotfile1": gen.describe(m1), "fields2": n2})
